@@ -456,17 +456,21 @@ pub struct Family {
     pub field: u8,
     /// text put before every member (so that the family sits at the end of a longer field)
     pub prefix: String,
+    /// symbols of more than one character (long digit runs around the limits of the integer types)
+    #[serde(default)]
+    pub tokens: Vec<String>,
 }
 
 fn family_members(c: &Family) -> Vec<String> {
     let mut out = vec![String::new()];
     let mut layer = vec![String::new()];
+    let symbols: Vec<String> = c.alphabet.iter().map(|c| c.to_string()).chain(c.tokens.iter().cloned()).collect();
     for _ in 0..c.max_len {
         let mut next = Vec::new();
         for s in &layer {
-            for ch in &c.alphabet {
+            for sym in &symbols {
                 let mut t = s.clone();
-                t.push(*ch);
+                t.push_str(sym);
                 next.push(t);
             }
         }
@@ -540,8 +544,8 @@ fn judge_family<I: Inst>(c: &Family, st: &mut Stats) -> Result<(), String> {
 }
 
 fn o_family(c: &Family, st: &mut Stats) -> Result<(), String> {
-    let n: u64 = (0..=c.max_len as u32).map(|l| (c.alphabet.len() as u64).pow(l)).sum();
-    if c.alphabet.is_empty() || n > 2_000 {
+    let n: u64 = (0..=c.max_len as u32).map(|l| ((c.alphabet.len() + c.tokens.len()) as u64).pow(l)).sum();
+    if c.alphabet.is_empty() || n > 2_000 || c.tokens.iter().any(|t| t.len() > 64) {
         return Err("bad replay case: family size".into());
     }
     judge_family::<IStr>(c, st)?;
@@ -560,18 +564,29 @@ fn gfamily() -> BoxedStrategy<Family> {
         proptest::collection::vec(pool, 2..=5),
         any::<u8>(),
         prop_oneof![3 => Just(String::new()), 1 => proptest::sample::select(&["1.", "v", "1", "10", "a-"][..]).prop_map(str::to_string), 1 => crate::chars::gtext(0)],
+        // now and then one symbol is a digit run at or beyond the limits of u32 / i64 / u64 / u128
+        prop_oneof![
+            3 => Just(Vec::new()),
+            1 => proptest::sample::select(
+                &["4294967296", "9223372036854775808", "18446744073709551615", "18446744073709551616", "100000000000000000000", "99999999999999999999", "340282366920938463463374607431768211456", "00000000000000000000"][..]
+            )
+            .prop_map(|t| vec![t.to_string()]),
+        ],
     )
-        .prop_map(|(mut alphabet, field, prefix)| {
+        .prop_map(|(mut alphabet, field, prefix, tokens)| {
             alphabet.sort();
             alphabet.dedup();
+            if !tokens.is_empty() {
+                alphabet.truncate(3);
+            }
             // as long as the family stays below ~400 members
-            let max_len = match alphabet.len() {
+            let max_len = match alphabet.len() + tokens.len() {
                 0..=2 => 6,
                 3 => 5,
                 4 => 4,
                 _ => 3,
             };
-            Family { alphabet, max_len, field, prefix }
+            Family { alphabet, max_len, field, prefix, tokens }
         })
         .boxed()
 }
@@ -587,12 +602,28 @@ pub struct PastCase {
     pub ty: String,
     pub name: String,
     pub version: String,
+    /// 0: a fresh builder; otherwise the builder comes from `into_builder()` of a value that was built (1) or
+    /// parsed (2) with qualifiers and a checksum - whatever `build()` remembers in the value travels along
+    #[serde(default)]
+    pub reopened: u8,
 }
 
 fn judge_past<I: ParseInst>(c: &PastCase, st: &mut Stats) -> Result<(), String> {
     let Some(ty) = I::make_type(&c.ty) else { return Ok(()) };
     let made = crate::engine::guard(|| {
-        let mut b = purl::GenericPurlBuilder::new(ty.clone(), c.name.as_str()).with_version(c.version.as_str());
+        let fresh = purl::GenericPurlBuilder::new(ty.clone(), c.name.as_str()).with_version(c.version.as_str());
+        let mut b = match c.reopened % 3 {
+            0 => fresh,
+            1 => fresh.with_qualifier("arch", "x")?.with_qualifier("checksum", "sha1:ABCD,md5:00")?.with_qualifier("zz", "1")?.build()?.into_builder(),
+            _ => {
+                let first = fresh.build()?;
+                let text = format!("{first}?arch=x&checksum=SHA1:abcd&zz=1");
+                match <I as ParseInst>::from_str(&text) {
+                    Ok(p) => p.into_builder(),
+                    Err(_) => first.into_builder(),
+                }
+            },
+        };
         crate::props::c11::drive(&mut b.parts.qualifiers, &c.q);
         b.build()
     });
@@ -659,7 +690,22 @@ pub fn sections() -> Vec<Box<dyn Section>> {
             thorough: 2_000_000,
             strategy: Box::new(|_| {
                 (crate::props::c11::gcase_for_c06(), proptest::sample::select(&["t", "npm", "pypi", "golang"][..]), crate::chars::gtext1(), crate::chars::gtext(0))
-                    .prop_map(|(q, ty, name, version)| PastCase { q, ty: ty.to_string(), name, version })
+                    .prop_map(|(mut q, ty, name, version)| {
+                        let reopened = (q.shuffle.first().copied().unwrap_or(0)) % 3;
+                        // now and then the past ends with an entry-API operation on one of the qualifiers a
+                        // re-opened value came with (the generated keys rarely name them)
+                        let pick = q.shuffle.get(1).copied().unwrap_or(255);
+                        if reopened != 0 && pick < 96 {
+                            let key = ["checksum", "Checksum", "arch", "zz"][pick as usize % 4].to_string();
+                            q.ops.push(match pick / 4 % 4 {
+                                0 => crate::props::c11::QOp::OccRemove(key),
+                                1 => crate::props::c11::QOp::OccRemoveEntry(key),
+                                2 => crate::props::c11::QOp::OccInsert(key, "sha1:00".into()),
+                                _ => crate::props::c11::QOp::Remove(key),
+                            });
+                        }
+                        PastCase { q, ty: ty.to_string(), name, version, reopened }
+                    })
                     .boxed()
             }),
             oracle: o_past,
